@@ -73,6 +73,7 @@ type Plan struct {
 	Epochs   [][]Op   `json:"epochs,omitempty"`
 	Tape     []int    `json:"tape,omitempty"`
 	Faults   []Fault  `json:"faults,omitempty"`
+	Golden   string   `json:"golden,omitempty"` // C18: name of the golden image the run starts from
 	// filled in on failure
 	Class  string `json:"violation_class,omitempty"`
 	Detail string `json:"violation_detail,omitempty"`
